@@ -105,6 +105,13 @@ UNITS.append(flow.Unit('sdrz', groups=['sdrz'], props=['props/C02_sdrz.v'], cust
                             'progress (theorem on regenerated definitions); also positivity / compression (C17) and c^2 = gamma p / rho (C03)'))
 
 
+import piston_corr as PC
+UNITS.append(flow.Unit('ep-piston', groups=['piston'], props=['props/C02_piston.v'], custom_corr=PC.unit_corr, oracle=PC.oracle,
+                       note='elastic precursor (any density at yield) and plastic wave (EVERY plastic wave speed) satisfy the jump conditions with the total stress '
+                            'p - s_dev (theorems on the regenerated constructor algebra); the three yield-density models and fsolve are outside the subset; _run returns '
+                            'these states region by region (checked on the real code)'))
+
+
 def run(report, tier, rng):
     report.assumptions += [
         'real-number semantics of the generated model; py2coq translator validated by in-Coq correspondence goals',
